@@ -1,6 +1,8 @@
 import HmfVerif.Real.Tactics
 import HmfVerif.Gen.ExprMdef
 import HmfVerif.Spec.Mdef
+import HmfVerif.Spec.Wiring
+import HmfVerif.Gen.ExprFlow
 /-!
 # C16 — mass definitions: exact overdensity algebra, mutual inverses
 (conversion between definitions rests on `brentq` and a halo profile: numerical checks only)
@@ -103,5 +105,8 @@ theorem SOMean_roundtrip (opq : String → ℝ → ℝ) (ρ : String → ℝ)
     norm_num
   rw [h2, h1]
   exact m_to_r_of_r_to_m _ _ hd hr
+
+/-- an explicitly selected mass definition is built from exactly the user's `mdef_params` -/
+theorem mdef_component_wiring : Gen.Flow.wiring.lookup "MassFunction.mdef" = some Spec.Wiring.mdef := by decide
 
 end Hmf.C16
